@@ -246,15 +246,16 @@ def check_generated(case):
     # part-way through closing: with a declared count, close() after fewer records raises -
     # what it leaves behind must not read as a system either
     if case["declare"] and len(case["records"]) >= 2:
-        for k in sorted(set([1, len(case["records"]) - 1])):
-            short = dict(case, records=case["records"][:k])
+        for k in sorted(set([1, len(case["records"]) - 1, len(case["records"]) + 1])):
+            extra = k > len(case["records"])          # one record MORE than declared: close() refuses that as well
+            short = dict(case, records=case["records"][:k] if not extra else case["records"])
             fpath = env.fresh_path(".gro")
             g = GroFile(fpath, "w")
             try:
                 with env.quiet():
                     if case["format"] is not None:
                         g.position_format = (case["format"] + 5, case["format"])
-                    g.natoms = len(case["records"])
+                    g.natoms = len(case["records"]) if not extra else len(case["records"]) - 1
                     for r in short["records"]:
                         g.writeline(list(r))
                     g.close()
